@@ -188,6 +188,30 @@ class MainTransformer(object):
 
         return param.argname
 
+    def _drop_references_to_parameter(self, parent, removed):
+        """The instance parameter and the trailing GError** leave the
+        parameter list; annotations of the remaining values can not refer
+        to them by index any more."""
+        name = removed.argname
+        if name is None:
+            return
+        for value in list(parent.parameters) + [parent.retval]:
+            if value is None:
+                continue
+            if isinstance(value, ast.Parameter):
+                if value.closure_name == name:
+                    message.warn_node(parent, "invalid \"closure\" annotation: '%s' is not "
+                                      "a regular parameter of '%s'" % (name, parent.name))
+                    value.closure_name = None
+                if value.destroy_name == name:
+                    message.warn_node(parent, "invalid \"destroy\" annotation: '%s' is not "
+                                      "a regular parameter of '%s'" % (name, parent.name))
+                    value.destroy_name = None
+            if isinstance(value.type, ast.Array) and value.type.length_param_name == name:
+                message.warn_node(parent, "invalid \"array\" annotation: length '%s' is not "
+                                  "a regular parameter of '%s'" % (name, parent.name))
+                value.type.length_param_name = None
+
     def _get_validate_field_name(self, parent, field_name, origin):
         try:
             field = parent.get_field(field_name)
@@ -1356,6 +1380,7 @@ method or constructor of some type."""
             target.methods.append(newfunc)
         else:
             func.instance_parameter = func.parameters.pop(0)
+            self._drop_references_to_parameter(func, func.instance_parameter)
             self._namespace.float(func)
 
             if not func.is_method or subsymbol.startswith(uscored_prefix + '_'):
@@ -1946,3 +1971,4 @@ method or constructor of some type."""
         if last_param.type.ctype == 'GError**':
             node.parameters.pop()
             node.throws = True
+            self._drop_references_to_parameter(node, last_param)
